@@ -105,13 +105,20 @@ fn absorb(agg: &mut Agg, stage: &str, case: &str, o: &Value) {
     }
     if let Some(ds) = o.get("drift").and_then(|v| v.as_array()) {
         for d in ds {
+            if d.get("nocap").and_then(|b| b.as_bool()).unwrap_or(false) {
+                if let (Some(evs), Some(f)) = (d.get("events").and_then(|e| e.as_array()), agg.trace_out.as_mut()) {
+                    for e in evs { let _ = writeln!(f, "{}", e); }
+                }
+                continue;
+            }
             agg.drift_count += 1;
             let kind = d.get("kind").and_then(|k| k.as_str()).unwrap_or("?").to_string();
             let n = agg.drift_kinds.entry(kind).or_insert(0);
             *n += 1;
             if let (Some(evs), Some(f)) = (d.get("events").and_then(|e| e.as_array()), agg.trace_out.as_mut()) {
                 // drifted histories are judged by the P-layer in TLC; cap per kind, keep the file small
-                if *n <= 60 && agg.trace_histories < 1500 {
+                let nocap = d.get("nocap").and_then(|b| b.as_bool()).unwrap_or(false);
+                if nocap || (*n <= 60 && agg.trace_histories < 1500) {
                     agg.trace_histories += 1;
                     for e in evs { let _ = writeln!(f, "{}", e); }
                 }
